@@ -25,6 +25,9 @@ RULE = (
     "reject whenever the reference rejects; wrong key / key name / algorithm / request MAC / time at the fudge boundaries / "
     "error codes / TSIG position and class faults. Distinct by (algorithm, mode, fault class, region of the flipped bit)."
 )
+RULE += " " + (
+    "Also: continuation envelopes naming another key or algorithm (keyrings of keys, of bare secrets, a single key); use_tsig with a keyring of bare secrets for every algorithm."
+)
 ASSUMPTIONS = [
     "reference TSIG implementation vlib/ref/tsig.py (hmac/hashlib) and wire walker",
     "dns.message.time is replaced by a virtual clock",
